@@ -91,6 +91,9 @@ def unary_ctors(nm: Namer) -> Dict[str, Callable[[T], T]]:
         "vartuple": lambda x: Coll("vartuple", x),
         "dict": lambda x: MapT("dict", STR, x),
         "mapping_patkey": mapping_patkey,
+        # keys whose typed image is not the raw string (the check-only / pass-through fast paths must not apply)
+        "dict_enumkey": lambda x: MapT("dict", EnumT(nm("KE"), (("A", "ka"), ("B", "kb"))), x),
+        "mapping_litkey": lambda x: MapT("mapping", Lit(("k1", "k2")), x),
         "con_list": lambda x: Con(Coll("list", x), (("min_items", 1), ("max_items", 2), ("unique", True))),
         "con_dict": lambda x: Con(MapT("dict", STR, x), (("min_props", 1), ("max_props", 2))),
         "newtype_list": lambda x: NewT(nm("N"), Coll("list", x)),
@@ -226,6 +229,19 @@ def object_shapes(nm: Namer) -> Dict[str, Callable[[T, Ctx], Optional[T]]]:
     def props_only_pattern(x, c):
         return Obj(
             "dataclass", nm("O"), (F("a", INT), F("pat", MapT("mapping", STR, x), props="^p", factory="dict", default_value={}))
+        )
+
+    def props_inferred(x, c):
+        # properties(...): the pattern comes from the key type of the mapping
+        k = NewT(nm("K"), Con(STR, (("pattern", "^p"),)))
+        return Obj(
+            "dataclass",
+            nm("O"),
+            (
+                F("a", INT),
+                F("pat", MapT("mapping", k, x), props="^p", props_infer=True, factory="dict", default_value={}),
+                F("rest", MapT("mapping", STR, x), props="", factory="dict", default_value={}),
+            ),
         )
 
     def skip_variants(x, c):
@@ -371,6 +387,18 @@ def object_shapes(nm: Namer) -> Dict[str, Callable[[T, Ctx], Optional[T]]]:
         )
         fa = dfield("a", x, c)
         return fa and Obj("dataclass", nm("O"), (fa,), bases=(base.name,), base_specs=(base,))
+
+    def custom_init(x, c):
+        # hand-written __init__ with the signature dataclass would have generated (init=False): it is the
+        # constructor, whatever the optimisation options
+        return Obj(
+            "dataclass",
+            nm("O"),
+            (F("a", x), F("tag", INT, default="1", has_default=True, default_value=1)),
+            dc_init=False,
+            extra_src="    def __init__(self, a, tag=1):\n        self.a = a\n        self.tag = tag + 100",
+            post_effects=(("tag", lambda fs: fs["tag"] + 100),),
+        )
 
     def two_fields(x, c):
         return Obj("dataclass", nm("O"), (F("a", x), F("b", x)))
